@@ -393,6 +393,61 @@ def chainCost : List (Wrapper α) → Nat
   | .blur _ :: ws => chainCost ws
   | .aliasing _ n :: ws => (2 * n + 1) * chainCost ws
 
+/-! ### FixedDiodeModel (the filter `calibrate_force(..., fixed_diode=…, fixed_alpha=…)` installs on the model) -/
+
+/-- `FixedDiodeModel.__init__`: a fixed relaxation factor lies in `[0, 1]` (both ends allowed), a fixed roll-off
+    frequency is positive; `None` leaves the parameter free. -/
+def fixedDiodeValid (fixFd fixA : Option α) : Bool :=
+  (match fixA with | some a => le 0.0 a && le a 1.0 | none => true) &&
+  (match fixFd with | some fd => lt 0.0 fd | none => true)
+
+/-- `self._parameters[self._fitted_idx] = pars`: the slots that were given `None` are filled, in order, from the
+    parameters of the call; a slot fixed at a number keeps that number — whatever it is (`0` is a value, not
+    "absent").  `none` when the call brings another number of parameters than there are free slots (not generated). -/
+def fillFree : List (Option α) → List α → Option (List α)
+  | [], [] => some []
+  | [], _ :: _ => none
+  | some x :: slots, ps => (fillFree slots ps).map (x :: ·)
+  | none :: _, [] => none
+  | none :: slots, p :: ps => (fillFree slots ps).map (p :: ·)
+
+/-- `FixedDiodeModel(diode_frequency, diode_alpha)(f, *pars) = g_diode(f, *self._parameters)`.  A pure function of
+    the fixed values and of THIS call's parameters: nothing of an earlier call is kept. -/
+def fixedDiode (fixFd fixA : Option α) (pars : List α) (f : α) : Option α :=
+  match fillFree [fixFd, fixA] pars with
+  | some [fd, a] => some (gDiode f fd a)
+  | _ => none
+
+/-- the filter parameters a caller passes (`model(f, fc, D, *pars)`): a value for every parameter that is not fixed,
+    roll-off frequency first -/
+def freePars (fixFd fixA : Option α) (fd a : α) : List α :=
+  (match fixFd with | none => [fd] | some _ => []) ++ (match fixA with | none => [a] | some _ => [])
+
+/-- `PassiveCalibrationModel.__call__(f, fc, D, *pars)` of a model whose `_filter` is a `FixedDiodeModel` -/
+def Passive.callFixed (m : Passive α) (fixFd fixA : Option α) (pars : List α) (f fc D : α) : Option α :=
+  (fixedDiode fixFd fixA pars f).map (m.physical f fc D * ·)
+
+/-! ### coupling_correction_2d: the 2-D decomposition for ONE bead pair (the code maps it over arrays of pairs) -/
+
+/-- `coupling_correction_2d` for the pair at `(dx, dy)`, given the factor along the bead-bead axis (`ca`,
+    Stimson–Jeffery) and perpendicular to it (`cp`, Goldman–Cox–Brenner) AT THIS PAIR'S distance: unit vectors along /
+    across the axis (each pair divided by its own distance), the oscillation direction projected on both, scaled,
+    projected back. -/
+def coupling2d (dx dy ca cp : α) (isY : Bool) : α :=
+  let dist := sqrt (dx * dx + dy * dy)
+  let ex : α := if isY then 0.0 else 1.0
+  let ey : α := if isY then 1.0 else 0.0
+  -- dir_aligned = [dx, dy] / distances ; dir_perp = [dy, -dx] / distances
+  let da := dx / dist * ex + dy / dist * ey
+  let dp := dy / dist * ex + -dx / dist * ey
+  let vAligned := da * ca
+  let vPerp := dp * cp
+  vAligned * da + vPerp * dp
+
+/-- the array call: pair `i` of the answer is the factor of pair `i` alone (its own distance, its own 1-D factors) -/
+def coupling2dList (dxs dys cas cps : List α) (isY : Bool) : List α :=
+  List.zipWith (fun (p : α × α) (c : α × α) => coupling2d p.1 p.2 c.1 c.2 isY) (dxs.zip dys) (cas.zip cps)
+
 end formulas
 
 /-! ### protocol -/
@@ -437,6 +492,10 @@ def chain? : List String → Option (List (Wrapper Float))
   `c20.passiveblur <cfg> T f fc D fd α` · `c20.passivealias <cfg> fs n f fc D fd α`
   `c20.passivechain <cfg> f fc D fd α <steps: B T | A fs n …>` -> the spectral density after every prefix of the chain
   `c20.passivesetdrag <cfg> f fc D fd α γ <steps>` -> `[psd before, psd after _set_drag(γ), after every further step…, drag_coeff, _drag]`
+  `c20.passivefixed <cfg> fixed_f_diode|N fixed_alpha|N f fc D [f_diode,…] [alpha,…] <steps>` -> one model object whose filter is
+      `FixedDiodeModel(fixed_f_diode, fixed_alpha)`, called once per (f_diode, alpha) pair (only the free ones are passed):
+      `[filter, psd, psd behind the wrapper steps, …]` (three numbers per call) or an error name
+  `c20.couple2d is_y rot R [dx,…] [dy,…] [aligned factor,…]` -> `coupling_correction_2d(dx, dy, 2R, is_y, rot)`, one factor per pair
   `c20.water V|D [T,…] c|N p|N` -> `viscosity_of_water` / `density_of_water` at each temperature, or an error name -/
 def handle : List String → Option String
   | ["c20.lor", f, fc, D] => do
@@ -544,6 +603,37 @@ def handle : List String → Option String
         let m' := m.setDrag g
         some (showFloatList (m.call f fc D fd a :: chainStages ws (fun f => m'.call f fc D fd a) f ++ [m'.dragCoeff, m'.drag]))
     | _ => none
+  | "c20.passivefixed" :: rest =>
+    if rest.length < 16 then none else do
+    let c ← cfg? (rest.take 9)
+    match (rest.drop 9).take 7 with
+    | [xfd, xa, f, fc, D, fds, as] =>
+      let xfd ← optFloat? xfd; let xa ← optFloat? xa
+      let f ← float? f; let fc ← float? fc; let D ← float? D
+      let fds ← floatList? fds; let as ← floatList? as
+      let ws ← chain? (rest.drop 16)
+      if fds.length ≠ as.length || c.fastSensor then none else
+      if chainCost ws * fds.length > 200000 then none else
+      match Passive.init c with
+      | .error e => some (showErr e)
+      | .ok m =>
+        if !fixedDiodeValid xfd xa then some "ValueError" else do
+        -- one object, called once per (f_diode, alpha) in order: filter alone, the model, the model behind the wrappers
+        let per ← (fds.zip as).mapM fun ((fd, a) : Float × Float) => do
+          let pars := freePars xfd xa fd a
+          let g ← fixedDiode xfd xa pars f
+          let p ← m.callFixed xfd xa pars f fc D
+          let w := wrapChain ws (fun x => (m.callFixed xfd xa pars x fc D).getD 0.0) f
+          some [g, p, w]
+        some (showFloatList per.flatten)
+    | _ => none
+  | ["c20.couple2d", isY, rot, R, dxs, dys, sts] => do
+    let isY ← bool? isY; let rot ← bool? rot; let R ← float? R
+    let dxs ← floatList? dxs; let dys ← floatList? dys; let sts ← floatList? sts
+    if dxs.length ≠ dys.length || dxs.length ≠ sts.length then none else
+    -- the perpendicular factor at each pair's own distance (`np.sqrt(dx**2 + dy**2)`); the aligned one is handed in
+    let cps := (dxs.zip dys).map fun ((dx, dy) : Float × Float) => goldman R (Float.sqrt (dx * dx + dy * dy)) rot
+    some (showFloatList (coupling2dList dxs dys sts cps isY))
   | ["c20.water", fn, ts, c, p] => do
     let ts ← floatList? ts; let c ← optFloat? c; let p ← optFloat? p
     let one (T : Float) : Option (Except Err Float) :=
